@@ -86,7 +86,7 @@ func c14Domains(e *domEnv) []*msgDom {
 			`{"a":1}`, `{"a": 1}`, `{"a":1,"a":2}`, `{"a":2}`, `9007199254740993`, `9007199254740992`, `"eA=="`, `"x"`, `null`, `[]`),
 		sv("writer_address", func(m sdk.Msg, v string) { m.(*aoltypes.MsgAddRecordRequest).WriterAddress = v }, W, B),
 		sv("owner_address", func(m sdk.Msg, v string) { m.(*aoltypes.MsgAddRecordRequest).OwnerAddress = v }, A, B),
-		sv("fee_payer_address", func(m sdk.Msg, v string) { m.(*aoltypes.MsgAddRecordRequest).FeePayerAddress = v }, "", F, A),
+		sv("fee_payer_address", func(m sdk.Msg, v string) { m.(*aoltypes.MsgAddRecordRequest).FeePayerAddress = v }, "", F, A, W, B), // incl. the writer's own address
 	}})
 	// DID: the document is one of several complete shapes about the did field
 	k := e.DidKey
